@@ -95,6 +95,90 @@ FullSpec(lam) ==
     {[lam |-> mu, mult |-> Cardinality({i \in 1..Len(lam): lam[i] = mu})]: mu \in {lam[i]: i \in 1..Len(lam)}}
 
 ---------------------------------------------------------------------------
+(* Exact Arnoldi factorisation over Q(i): the "exact breakdown" family.    *)
+(*                                                                         *)
+(* For catalog cases flagged `exact` every residual norm of the Arnoldi    *)
+(* process is rational, so the orthonormal basis q_1..q_KDim and the       *)
+(* Hessenberg matrix are computed here exactly (Gram-Schmidt in exact      *)
+(* arithmetic; classical = modified).  The process ends at the first step  *)
+(* whose residual is identically zero; that step must be KDim (rank based).*)
+(* FPExact states that every q_j and every h_ij is a dyadic rational with  *)
+(* small numerator / denominator whose real or imaginary part vanishes:    *)
+(* all products and sums of the floating-point run (binary32 included) are *)
+(* then exact whatever their order, the norms are square roots of perfect  *)
+(* squares, and the residual at breakdown is the floating-point number 0.0.*)
+(* So for these cases the numeric stopping test with tol = 0 IS the exact  *)
+(* test "residual # 0" that MC_Krylov feeds to the control skeleton, 0/0   *)
+(* appears in any unguarded normalisation, and the returned Q / H must     *)
+(* equal the matrices exported here.                                       *)
+(* integer square root of a perfect square (-1 otherwise); arguments are small *)
+RECURSIVE ISqrtFrom(_, _)
+ISqrtFrom(k, s) == IF s * s = k THEN s ELSE IF s * s > k THEN -1 ELSE ISqrtFrom(k, s + 1)
+ISqrt(k) == IF k < 0 THEN -1 ELSE ISqrtFrom(k, 0)
+RECURSIVE IsPow2(_)
+IsPow2(k) == k = 1 \/ (k > 1 /\ k % 2 = 0 /\ IsPow2(k \div 2))
+QRed(x) ==
+    LET g == Gcd(Gcd(x.n[1], x.n[2]), x.d)
+    IN IF g <= 1 THEN x ELSE [n |-> <<x.n[1] \div g, x.n[2] \div g>>, d |-> x.d \div g]
+\* columns are n x 1 matrices; ||w||^2 = ColAbs2(w) / w.d^2
+ColAbs2(w) == CSumSeq([i \in 1..w.r |-> <<CAbs2(w.e[i][1]), 0>>])[1]
+Inner(q, w) == LET p == MMul(MAdj(q), w) IN QRed([n |-> p.e[1][1], d |-> p.d])
+\* Gram-Schmidt sweep of w against qs[i..]: [w |-> remainder, h |-> coefficients]
+RECURSIVE Sweep(_, _, _)
+Sweep(qs, w, i) ==
+    IF i > Len(qs) THEN [w |-> w, h |-> <<>>]
+    ELSE LET hij == Inner(qs[i], w)
+             r == Sweep(qs, MNormalize(MSub(w, MScale(hij, qs[i]))), i + 1)
+         IN [w |-> r.w, h |-> <<hij>> \o r.h]
+\* qs: orthonormal columns so far; hs[j] = <<h_1j, ..., h_(j+1)j>>.  Ends at the first zero residual (at the
+\* latest after n steps: n + 1 orthonormal vectors do not exist) or at the first irrational norm.
+RECURSIVE XArn(_, _, _)
+XArn(A, qs, hs) ==
+    LET sw == Sweep(qs, MMul(A, qs[Len(qs)]), 1)
+        s2 == ColAbs2(sw.w)
+        s == ISqrt(s2)
+    IN IF s2 = 0 THEN [q |-> qs, h |-> hs \o <<sw.h \o <<QInt(0)>>>>, rational |-> TRUE]
+       ELSE IF s < 0 \/ Len(qs) >= A.r THEN [q |-> qs, h |-> hs, rational |-> FALSE]
+       ELSE XArn(A, qs \o <<MNormalize(MkMatD(A.r, 1, s, LAMBDA i, k: sw.w.e[i][1]))>>,
+                 hs \o <<sw.h \o <<QRed([n |-> <<s, 0>>, d |-> sw.w.d])>>>>)
+ExactArnoldi(A, v) ==
+    LET s == ISqrt(ColAbs2(v))
+    IN IF s <= 0 THEN [q |-> <<>>, h |-> <<>>, rational |-> FALSE]
+       ELSE XArn(A, <<MNormalize(MkMatD(A.r, 1, s, LAMBDA i, k: v.e[i][1]))>>, <<>>)
+
+DyadicC(x, d, b) ==
+    /\ IsPow2(d) /\ d <= b
+    /\ x[1] <= b /\ x[1] >= -b /\ x[2] <= b /\ x[2] >= -b
+    /\ (x[1] = 0 \/ x[2] = 0)
+FPExact(xa, b) ==
+    /\ xa.rational
+    /\ \A j \in 1..Len(xa.q): \A i \in 1..xa.q[j].r: DyadicC(xa.q[j].e[i][1], xa.q[j].d, b)
+    /\ \A j \in 1..Len(xa.h): \A i \in 1..Len(xa.h[j]): DyadicC(xa.h[j][i].n, xa.h[j][i].d, b)
+RECURSIVE LinComb(_, _, _)
+LinComb(hs, qs, i) ==
+    IF i = 1 THEN MScale(hs[1], qs[1]) ELSE MAdd(LinComb(hs, qs, i - 1), MScale(hs[i], qs[i]))
+\* the exact factorisation has the property's shape: KDim orthonormal columns starting with v/||v||, upper
+\* Hessenberg H with positive sub-diagonal, A q_j = sum_(i <= j+1) h_ij q_i, zero residual exactly at step KDim
+ExactArnoldiOK(A, v, kd, b) ==
+    LET xa == ExactArnoldi(A, v)
+        k == Len(xa.q)
+    IN /\ FPExact(xa, b)
+       /\ \A i \in 1..A.r: \A j \in 1..A.c: DyadicC(A.e[i][j], A.d, b)
+       /\ k = kd /\ Len(xa.h) = kd
+       /\ MEq(MScale(QInt(ISqrt(ColAbs2(v))), xa.q[1]), v)
+       /\ \A i \in 1..k: \A j \in 1..k: Inner(xa.q[i], xa.q[j]) = (IF i = j THEN QInt(1) ELSE QInt(0))
+       /\ \A j \in 1..k:
+             /\ Len(xa.h[j]) = j + 1
+             /\ MEq(MMul(A, xa.q[j]), LinComb(xa.h[j], xa.q, KMin2(j + 1, k)))
+             /\ xa.h[j][j + 1].n[2] = 0
+             /\ IF j < k THEN xa.h[j][j + 1].n[1] > 0 ELSE xa.h[j][j + 1].n[1] = 0
+\* export: columns of Q as [e (numerators), d], columns of H as sequences of [n, d]
+ExactExport(A, v) ==
+    LET xa == ExactArnoldi(A, v)
+    IN [xq |-> [j \in 1..Len(xa.q) |-> [e |-> [i \in 1..A.r |-> xa.q[j].e[i][1]], d |-> xa.q[j].d]],
+        xh |-> xa.h]
+
+---------------------------------------------------------------------------
 (* expected observables as functions of (max_iters m, size n, KDim kd) *)
 \* Lanczos: number of columns of Q = size of T
 LanczosCols(m, n, kd) == KMin3(m, n, kd)
